@@ -819,6 +819,15 @@ fn run_tx(w: &World, ready: Ready<Script>, model: Model, writers: BTreeMap<(Cont
         }
     };
     rep.count_n("steps_monitored", res.steps);
+    if let Some(hp) = &res.host_panic {
+        // a storage instruction that must end in a VM panic (or succeed) took the host down
+        let site = hp.rsplit(" @ ").next().unwrap_or("").trim_start_matches("/repo/").to_string();
+        let site = match site.strip_prefix("/rustc/") {
+            Some(r) => r.splitn(2, '/').nth(1).unwrap_or(r).to_string(),
+            None => site,
+        };
+        rep.violation(format!("C33|host panic while executing a storage workload|{site}"), format!("tx{tx_no}: {hp}"), || replay.clone());
+    }
     attach(&mut case_rep, replay);
     // written-out examples of the not-judged partial effects (first case of each kind per worker)
     let partial: Vec<String> = case_rep.counters.keys().filter(|k| k.starts_with("partial_effect_")).cloned().collect();
